@@ -150,6 +150,7 @@ Check(e) ==
          /\ Mode \in {"C02", "C13"} => \E c \in CycleOutcomes(S) :
                                /\ PostEq(e, c.S, S.core, t.stale)
                                /\ c.tasks # << >> => e.ret = c.S.living
+                               /\ ("tasks" \in DOMAIN e) => [k \in 1..Len(e.tasks) |-> <<e.tasks[k].w, e.tasks[k].pc>>] = c.pops   \* executed PCs
                                /\ Mode = "C13" => QryOK(e, c.S, t.stale)
          /\ Mode = "C15" => \E c \in CycleOutcomes(S) : PostEq(e, c.S, S.core, t.stale) /\ ReportsOK(e, c, S)
     [] e.ev = "runtwin" ->
